@@ -695,6 +695,27 @@ func (g *psGen) step() {
 		add(2, g.ctlForall)
 		add(2, g.ctlLoop)
 		add(2, g.defProc)
+		if g.o.Errors > 0 {
+			// standard operators this interpreter does not define (today): a
+			// procedure handed to `stopped`, or one of the others on plausible
+			// operands.  On the unchanged library they end the program with an
+			// undefined error; that, too, must happen at the same tick for every
+			// budget
+			add(1, func() {
+				if t.Bool(1, 2) {
+					g.neutralBody(6)
+					g.op("stopped")
+					g.push(kB)
+					return
+				}
+				g.litInt()
+				g.litInt()
+				g.op([]string{"idiv", "mod", "lt", "gt", "le", "ge", "div", "exch neg", "max", "min"}[t.Choose(10)])
+				g.pop()
+				g.pop()
+				g.push(kX)
+			})
+		}
 	}
 	if g.o.Stop && g.depth > 0 && t.Bool(1, 20) {
 		add(1, func() { g.op("exit"); g.p.HasStop = true })
